@@ -2,6 +2,7 @@ import AdaptiveProofs.Lemmas.TriGeom
 import AdaptiveProofs.Lemmas.TriVolume
 import AdaptiveProofs.Lemmas.TriNoInternal
 import AdaptiveProofs.Lemmas.TriCavityModel
+import AdaptiveProofs.Lemmas.TriDelaunay2Truthful
 import Mathlib.Tactic.Ring
 import Mathlib.Tactic.Linarith
 import Mathlib.Algebra.Order.Ring.Abs
@@ -130,8 +131,12 @@ more than two simplices), are non-degenerate, and the cavity is star-shaped with
 simplices `face ++ [pt]` over the model's hole faces have exactly the total volume of the deleted ones
 (`cavity_volume_conserved_2d/_3d`), and this is what one accepted interior `bowyer_watson` / `add_point` of the
 model does (`bowyer_watson_preserves_volume_2d/_3d`, `add_point_interior_preserves_volume_2d`): the total simplex
-volume is unchanged.  STILL MISSING: that truthful predicates IMPLY those three geometric hypotheses for the cavity
-(star-shapedness from the in-circle test, the local tiling property as an invariant), the hull-extension path, the
+volume is unchanged.  In dimension 2 star-shapedness and non-degeneracy of the cavity are now DERIVED (section C03.f,
+`Lemmas/TriDelaunay2*.lean`): from truthful in-circle answers (the work-list invariant `bowyer_watson_neighbours_asked`
+shows every deleted simplex was answered True and every kept neighbour False), a locally Delaunay triangulation across
+the cavity boundary and opposite sides around the cavity, an accepted interior insertion conserves the total area
+(`bowyer_watson_truthful_preserves_area_2d`, `add_point_truthful_preserves_area_2d`).  STILL MISSING: the local tiling
+and local Delaunay properties as INVARIANTS of the insertion sequence, dimension 3 of the star-shapedness, the hull-extension path, the
 cover/disjointness clauses as sets (only their volume shadow is proved), and Delaunay.  On the real code the
 clauses are audited exactly after every insertion by `harness/tri_drive.py`. -/
 def tiles_hull_statement : Prop :=
@@ -383,5 +388,355 @@ example : OppositeSides2 exXflat [[0, 1, 2]] ∧
   · norm_num [sv2, area2, exXflat]
   · rw [h0]
     norm_num [sv2, area2, exXflat]
+
+/-! ## C03.f  The Delaunay cavity is star-shaped: `hstar` of C03.e PROVED from the in-circle test (dimension 2)
+
+Helper lemmas: `Lemmas/TriDelaunay2.lean` (predicates, pencil of circles, key lemma, list level),
+`Lemmas/TriDelaunay2Circ.lean` (bridge to `circumsphere2`), `Lemmas/TriDelaunay2Model.lean` (the model's
+`bowyerWatson` / `addPoint`), `Lemmas/TriDelaunay2Truthful.lean` (work-list invariant: from truthful answers to (i), (ii)).  Exact polynomial predicates over any ordered commutative ring (ℚ, ℝ, …):
+`sideL a b x = area2 a b x` (signed side of the line `ab`), `diamC0 a b x = (x-a)·(x-b)`,
+`power a b c x = sideL a b c * diamC0 a b x - diamC0 a b c * sideL a b x` (orientation × power of `x` w.r.t. the
+circumcircle of `abc`; minus the classical lifted in-circle determinant), `InCircle a b c x := sideL a b c * power a b c x
+< 0` (`x` STRICTLY inside, invariant under all permutations of `a b c`), `InCircle2 x t q` the same for a triangle given
+by its index list.  "Not strictly inside" (`¬ InCircle`) is the right weak notion: cocircular points are allowed
+everywhere. -/
+
+/-- C03.f (1a)  The power function is THE SAME quadratic for the three edges of the triangle (a triangle may own
+several hole edges), changes sign with the orientation, vanishes at the three vertices, and is minus the lifted
+in-circle determinant. -/
+theorem incircle_power_symmetric {α : Type} [CommRing α] (a b c x : α × α) :
+    power b c a x = power a b c x ∧ power c a b x = power a b c x ∧ power b a c x = -power a b c x ∧
+    power a b c a = 0 ∧ power a b c b = 0 ∧ power a b c c = 0 ∧ power a b c x = -inCircleDet a b c x :=
+  ⟨power_cycle a b c x, power_cycle' a b c x, power_swap a b c x, power_left a b c, power_right a b c,
+    power_apex a b c, power_eq_neg_inCircleDet a b c x⟩
+
+/-- C03.f (1b)  PENCIL OF CIRCLES through `a ≠ b`: every circle through `a` and `b` is `diamC0 + lam * sideL = 0` for
+some `lam`; two members `lam`, `mu` and a witness `d` strictly on the negative side of `ab`, on or inside `mu` and not
+strictly inside `lam`: then `lam ≤ mu`, and on the closed negative side the disk of `lam` lies in the disk of `mu`. -/
+theorem circle_pencil_2d {α : Type} [Field α] [LinearOrder α] [IsStrictOrderedRing α] (a b : α × α) :
+    (a ≠ b → ∀ (m : α × α) (r2 : α),
+      (a.1 - m.1) * (a.1 - m.1) + (a.2 - m.2) * (a.2 - m.2) = r2 →
+      (b.1 - m.1) * (b.1 - m.1) + (b.2 - m.2) * (b.2 - m.2) = r2 →
+      ∃ lam : α, ∀ x : α × α, (x.1 - m.1) * (x.1 - m.1) + (x.2 - m.2) * (x.2 - m.2) - r2 = circ a b lam x) ∧
+    (∀ (d : α × α) (lam mu : α), sideL a b d < 0 → circ a b mu d ≤ 0 → 0 ≤ circ a b lam d →
+      lam ≤ mu ∧ ∀ p : α × α, sideL a b p ≤ 0 → circ a b mu p ≤ circ a b lam p) ∧
+    (∀ c x : α × α, sideL a b c ≠ 0 → (InCircle a b c x ↔ circ a b (-diamC0 a b c / sideL a b c) x < 0)) :=
+  ⟨fun hab m r2 ha hb => circle_in_pencil a b m r2 hab ha hb,
+    fun _ _ _ hd hon hout => ⟨pencil_param_le hd hon hout, fun _ hp => pencil_mono (pencil_param_le hd hon hout) hp⟩,
+    fun c x h => inCircle_iff_circ a b c x h⟩
+
+/-- C03.f (1c)  KEY LEMMA (any ordered commutative ring).  Triangles `abc`, `abd` strictly on opposite sides of `ab`;
+`p` strictly inside `circ(abc)`; `d` not strictly inside `circ(abc)` (the pair is locally Delaunay).  Then: `p` strictly
+on the far side of `ab` ⇒ `p` strictly inside `circ(abd)`; hence if `p` is NOT strictly inside `circ(abd)` (the
+neighbour is not deleted) `p` is on the side of `c` — even strictly: the new triangle `abp` is not flat. -/
+theorem delaunay_far_side_2d {α : Type} [CommRing α] [LinearOrder α] [IsStrictOrderedRing α] {a b c d p : α × α}
+    (hopp : sideL a b c * sideL a b d < 0) (hp : InCircle a b c p) (hdel : ¬ InCircle a b c d) :
+    (sideL a b c * sideL a b p < 0 → InCircle a b d p) ∧
+    (¬ InCircle a b d p → 0 < sideL a b c * sideL a b p) :=
+  ⟨far_side_in_neighbour_circle hopp hp hdel, strictly_near_side hopp hp hdel⟩
+
+/-- C03.f (2)  THE DELAUNAY CAVITY IS STAR-SHAPED.  `bad`: sorted triangles; (i) `x pt` strictly inside the circumcircle of
+every `t ∈ bad` (this also makes them non-degenerate, (iii)); (ii) for every hole edge `e` of the model's hole list,
+owner `T = owner 2 bad e`: EITHER a sorted triangle `t'` with the edge `e` whose third vertex is strictly on the other
+side of `e` (the `OppositeSides2` clause for the pair `T`, `t'`), with `x pt` NOT strictly inside `circ(t')` and the third
+vertex of `t'` NOT strictly inside `circ(T)` (local Delaunay), OR (hull edge) `x pt` not strictly outside `e`.
+Conclusion: exactly the hypothesis `hstar` of `cavity_volume_conserved_2d`. -/
+theorem cavity_star_shaped_2d {α : Type} [CommRing α] [LinearOrder α] [IsStrictOrderedRing α]
+    (x : ℕ → α × α) (bad : List Simplex) (pt : ℕ)
+    (hS : ∀ t ∈ bad, t.length = 3 ∧ t.Pairwise (· < ·))
+    (hin : ∀ t ∈ bad, InCircle2 x t (x pt))
+    (hedge : ∀ e ∈ hole 2 bad,
+      (∃ t' : Simplex, (t'.length = 3 ∧ t'.Pairwise (· < ·)) ∧ e ∈ combos 2 t' ∧
+        (∀ c' ∈ t', c' ∉ e → sve2 x (owner 2 bad e) e (x c') * sv2 x (owner 2 bad e) < 0) ∧
+        ¬ InCircle2 x t' (x pt) ∧
+        (∀ c' ∈ t', c' ∉ e → ¬ InCircle2 x (owner 2 bad e) (x c'))) ∨
+      0 ≤ sve2 x (owner 2 bad e) e (x pt) * sv2 x (owner 2 bad e)) :
+    (∀ t ∈ bad, sv2 x t ≠ 0) ∧
+    ∀ e ∈ hole 2 bad, 0 ≤ osign (sv2 x (owner 2 bad e)) * sve2 x (owner 2 bad e) e (x pt) :=
+  ⟨fun t ht => sv2_ne_zero_of_inCircle2 x (hin t ht), cavity_star_2d x bad pt hS hin hedge⟩
+
+/-- C03.f (2')  … hence the area of a Delaunay cavity is conserved (C03.e (4) without the star-shapedness hypothesis). -/
+theorem delaunay_cavity_volume_conserved_2d {α : Type} [CommRing α] [LinearOrder α] [IsStrictOrderedRing α]
+    (x : ℕ → α × α) (bad : List Simplex) (pt : ℕ) (hN : bad.Nodup)
+    (hS : ∀ t ∈ bad, t.length = 3 ∧ t.Pairwise (· < ·)) (hO : OppositeSides2 x bad)
+    (hin : ∀ t ∈ bad, InCircle2 x t (x pt))
+    (hedge : ∀ e ∈ hole 2 bad,
+      (∃ t' : Simplex, (t'.length = 3 ∧ t'.Pairwise (· < ·)) ∧ e ∈ combos 2 t' ∧
+        (∀ c' ∈ t', c' ∉ e → sve2 x (owner 2 bad e) e (x c') * sv2 x (owner 2 bad e) < 0) ∧
+        ¬ InCircle2 x t' (x pt) ∧
+        (∀ c' ∈ t', c' ∉ e → ¬ InCircle2 x (owner 2 bad e) (x c'))) ∨
+      0 ≤ sve2 x (owner 2 bad e) e (x pt) * sv2 x (owner 2 bad e)) :
+    (bad.map (fun t => |sv2 x t|)).sum = ((hole 2 bad).map (fun e => |sv2 x (e ++ [pt])|)).sum :=
+  let h := cavity_star_shaped_2d x bad pt hS hin hedge
+  cavity_volume_conserved_2d x bad pt hN hS hO h.1 h.2
+
+/-- C03.f (3)  ONE ACCEPTED INTERIOR `bowyer_watson` WHOSE DELETED SET IS A DELAUNAY CAVITY CONSERVES THE AREA — star-shapedness
+is no longer a hypothesis.  Code-path hypotheses as in C03.e (5): index invariant, fresh last vertex index, no new
+triangle reported almost flat.  REMAINING geometric hypotheses and what they mean for the real code:
+* `hin` — every deleted triangle has `x pt` strictly inside its circumcircle: the `True` answers of
+  `point_in_cicumcircle` are truthful for the exact test (`point_in_circumcircle_exact_iff` below: the code's test with
+  `eps = 0` IS `InCircle`; with the real `eps = 1e-8` a `True` answer only gives `dist < r·(1+1e-8)`, this is where the
+  known finding `C03.tiling:incircle_decided_by_eps` enters);
+* `hedge` (`HoleEdgesDelaunay x s.simplices deleted (x pt)`) — for every hole edge `e` with owner `T`: either a triangle
+  `t'` of the triangulation BEFORE the insertion has the edge `e`, on the other side of `e` from `T` (genuine
+  triangulation around the cavity), `x pt` is not strictly inside `circ(t')` (the `False` answer for `t'` is truthful;
+  a `False` answer of the code's eps-test implies this, `inCircle_imp_circTest`; it also forces `t' ∉ deleted`), and
+  the apex of `t'` is not strictly inside `circ(T)` (the triangulation was LOCALLY DELAUNAY across the cavity boundary
+  before the insertion); or `e` is a hull edge and `x pt` is not strictly outside it (the insertion is interior);
+* `hO` (`OppositeSides2 x deleted`) — inside the cavity: neighbours on opposite sides of their common edge, no edge in
+  more than two deleted triangles (a genuine triangulation).
+Non-degeneracy of the deleted triangles follows from `hin`. -/
+theorem bowyer_watson_delaunay_preserves_area_2d {α : Type} [CommRing α] [LinearOrder α] [IsStrictOrderedRing α]
+    (x : ℕ → α × α) {s s' : State} {pt : ℕ} {start : Option Simplex}
+    {circ fl fl' : List (Simplex × Bool)} {deleted added : List Simplex}
+    (hI : Inv s) (hdim : s.dim = 2) (hpt : s.nVerts = pt + 1)
+    (hfresh : ∀ t ∈ s.simplices, ∀ v ∈ t, v < pt)
+    (hstart : ∀ c, start = some c → c ∈ s.simplices) (hfl : ∀ r ∈ fl, r.2 = false)
+    (hok : bowyerWatson s pt start circ fl = .ok (s', deleted, added, fl'))
+    (hO : OppositeSides2 x deleted)
+    (hin : ∀ t ∈ deleted, InCircle2 x t (x pt))
+    (hedge : ∀ e ∈ hole 2 deleted,
+      (∃ t' ∈ s.simplices, e ∈ combos 2 t' ∧
+        (∀ c' ∈ t', c' ∉ e → sve2 x (owner 2 deleted e) e (x c') * sv2 x (owner 2 deleted e) < 0) ∧
+        ¬ InCircle2 x t' (x pt) ∧
+        (∀ c' ∈ t', c' ∉ e → ¬ InCircle2 x (owner 2 deleted e) (x c'))) ∨
+      0 ≤ sve2 x (owner 2 deleted e) e (x pt) * sv2 x (owner 2 deleted e)) :
+    (added.map (fun t => |sv2 x t|)).sum = (deleted.map (fun t => |sv2 x t|)).sum ∧
+    (s.simplices.Nodup →
+      (s'.simplices.map (fun t => |sv2 x t|)).sum = (s.simplices.map (fun t => |sv2 x t|)).sum) :=
+  bowyerWatson_delaunay_area_2d x hI hdim hpt hfresh hstart hfl hok hO hin hedge
+
+/-- C03.f (3')  The same at the level of `add_point` (accepted insertion that does not go through `_extend_hull`; new
+point `x s.nVerts`; freshness follows from the invariant). -/
+theorem add_point_delaunay_preserves_area_2d {α : Type} [CommRing α] [LinearOrder α] [IsStrictOrderedRing α]
+    (x : ℕ → α × α) {s s' : State} {hint : Option Simplex} {o : Oracle}
+    {D A : List Simplex} (hI : Inv s) (hdim : s.dim = 2) (hv : ValidHint s hint) (hh : hint ≠ some [])
+    (hl : o.locate ≠ some []) (hfl : ∀ r ∈ o.flat, r.2 = false)
+    (hok : addPoint s hint o = .ok (s', D, A))
+    (hO : OppositeSides2 x D)
+    (hin : ∀ t ∈ D, InCircle2 x t (x s.nVerts))
+    (hedge : ∀ e ∈ hole 2 D,
+      (∃ t' ∈ s.simplices, e ∈ combos 2 t' ∧
+        (∀ c' ∈ t', c' ∉ e → sve2 x (owner 2 D e) e (x c') * sv2 x (owner 2 D e) < 0) ∧
+        ¬ InCircle2 x t' (x s.nVerts) ∧
+        (∀ c' ∈ t', c' ∉ e → ¬ InCircle2 x (owner 2 D e) (x c'))) ∨
+      0 ≤ sve2 x (owner 2 D e) e (x s.nVerts) * sv2 x (owner 2 D e)) :
+    (A.map (fun t => |sv2 x t|)).sum = (D.map (fun t => |sv2 x t|)).sum ∧
+    (s.simplices.Nodup →
+      (s'.simplices.map (fun t => |sv2 x t|)).sum = (s.simplices.map (fun t => |sv2 x t|)).sum) :=
+  addPoint_delaunay_area_2d x hI hdim hv hh hl hfl hok hO hin hedge
+
+/-- C03.f (3a)  WHAT THE WORK-LIST OF `bowyer_watson` GUARANTEES (any dimension ≥ 1, all oracle answers, all pop orders): after
+an accepted call with a fresh vertex index, every deleted simplex was answered `True` by `point_in_cicumcircle`, and
+every simplex of the old triangulation that is NOT deleted and shares a facet with a deleted one WAS ASKED and answered
+`False` (the queue is closed under face-neighbours of bad simplices and is empty at the end).  `P`/`N`: any properties
+implied by a `True`/`False` answer. -/
+theorem bowyer_watson_neighbours_asked (P N : Simplex → Prop) {s s' : State} {pt : ℕ} {start : Option Simplex}
+    {circ fl fl' : List (Simplex × Bool)} {deleted added : List Simplex} (hI : Inv s) (hdim : 0 < s.dim)
+    (hpt : s.nVerts = pt + 1) (hfresh : ∀ t ∈ s.simplices, ∀ v ∈ t, v < pt)
+    (hstart : ∀ c, start = some c → c ∈ s.simplices) (hfl : ∀ r ∈ fl, r.2 = false)
+    (hok : bowyerWatson s pt start circ fl = .ok (s', deleted, added, fl'))
+    (hP : ∀ r ∈ circ, r.2 = true → P r.1) (hN : ∀ r ∈ circ, r.2 = false → N r.1) :
+    (∀ t ∈ deleted, P t) ∧
+    (∀ b ∈ deleted, ∀ u ∈ s.simplices, u ∉ deleted → sharedCount u b = s.dim → N u) :=
+  bowyerWatson_asked P N hI hdim hpt hfresh hstart hfl hok hP hN
+
+/-- C03.f (3b)  TRUTHFUL IN-CIRCLE ANSWERS + LOCALLY DELAUNAY ACROSS THE CAVITY BOUNDARY ⇒ the cavity is a Delaunay cavity, it is
+star-shaped, and the insertion conserves the area.  Compared with (3): `hin` and the clause "`x pt` not strictly inside
+`circ(t')`" are no longer hypotheses — they follow from `htruth` (every recorded answer of `point_in_cicumcircle` equals
+the exact strict predicate `InCircle2`) by (3a).  What remains: `htruth`; `hO` (genuine triangulation inside the
+cavity); and for every hole edge either a non-deleted triangle `t'` of the old triangulation across it, on the other
+side, whose apex is not strictly inside the owner's circumcircle (old triangulation locally Delaunay there), or a hull
+edge with `x pt` not strictly outside. -/
+theorem bowyer_watson_truthful_preserves_area_2d {α : Type} [CommRing α] [LinearOrder α] [IsStrictOrderedRing α]
+    (x : ℕ → α × α) {s s' : State} {pt : ℕ} {start : Option Simplex}
+    {circ fl fl' : List (Simplex × Bool)} {deleted added : List Simplex}
+    (hI : Inv s) (hdim : s.dim = 2) (hpt : s.nVerts = pt + 1)
+    (hfresh : ∀ t ∈ s.simplices, ∀ v ∈ t, v < pt)
+    (hstart : ∀ c, start = some c → c ∈ s.simplices) (hfl : ∀ r ∈ fl, r.2 = false)
+    (hok : bowyerWatson s pt start circ fl = .ok (s', deleted, added, fl'))
+    (htruth : ∀ r ∈ circ, (r.2 = true ↔ InCircle2 x r.1 (x pt)))
+    (hO : OppositeSides2 x deleted)
+    (hedge : ∀ e ∈ hole 2 deleted,
+      (∃ t' ∈ s.simplices, t' ∉ deleted ∧ e ∈ combos 2 t' ∧
+        (∀ c' ∈ t', c' ∉ e → sve2 x (owner 2 deleted e) e (x c') * sv2 x (owner 2 deleted e) < 0) ∧
+        (∀ c' ∈ t', c' ∉ e → ¬ InCircle2 x (owner 2 deleted e) (x c'))) ∨
+      0 ≤ sve2 x (owner 2 deleted e) e (x pt) * sv2 x (owner 2 deleted e)) :
+    (∀ t ∈ deleted, InCircle2 x t (x pt)) ∧
+    (∀ e ∈ hole 2 deleted, 0 ≤ osign (sv2 x (owner 2 deleted e)) * sve2 x (owner 2 deleted e) e (x pt)) ∧
+    (added.map (fun t => |sv2 x t|)).sum = (deleted.map (fun t => |sv2 x t|)).sum ∧
+    (s.simplices.Nodup →
+      (s'.simplices.map (fun t => |sv2 x t|)).sum = (s.simplices.map (fun t => |sv2 x t|)).sum) :=
+  bowyerWatson_truthful_area_2d x hI hdim hpt hfresh hstart hfl hok htruth hO hedge
+
+/-- C03.f (3b'), at the level of `add_point` (`o.circ` the recorded `point_in_cicumcircle` answers). -/
+theorem add_point_truthful_preserves_area_2d {α : Type} [CommRing α] [LinearOrder α] [IsStrictOrderedRing α]
+    (x : ℕ → α × α) {s s' : State} {hint : Option Simplex} {o : Oracle}
+    {D A : List Simplex} (hI : Inv s) (hdim : s.dim = 2) (hv : ValidHint s hint) (hh : hint ≠ some [])
+    (hl : o.locate ≠ some []) (hfl : ∀ r ∈ o.flat, r.2 = false)
+    (hok : addPoint s hint o = .ok (s', D, A))
+    (htruth : ∀ r ∈ o.circ, (r.2 = true ↔ InCircle2 x r.1 (x s.nVerts)))
+    (hO : OppositeSides2 x D)
+    (hedge : ∀ e ∈ hole 2 D,
+      (∃ t' ∈ s.simplices, t' ∉ D ∧ e ∈ combos 2 t' ∧
+        (∀ c' ∈ t', c' ∉ e → sve2 x (owner 2 D e) e (x c') * sv2 x (owner 2 D e) < 0) ∧
+        (∀ c' ∈ t', c' ∉ e → ¬ InCircle2 x (owner 2 D e) (x c'))) ∨
+      0 ≤ sve2 x (owner 2 D e) e (x s.nVerts) * sv2 x (owner 2 D e)) :
+    (∀ t ∈ D, InCircle2 x t (x s.nVerts)) ∧
+    (∀ e ∈ hole 2 D, 0 ≤ osign (sv2 x (owner 2 D e)) * sve2 x (owner 2 D e) e (x s.nVerts)) ∧
+    (A.map (fun t => |sv2 x t|)).sum = (D.map (fun t => |sv2 x t|)).sum ∧
+    (s.simplices.Nodup →
+      (s'.simplices.map (fun t => |sv2 x t|)).sum = (s.simplices.map (fun t => |sv2 x t|)).sum) :=
+  addPoint_truthful_area_2d x hI hdim hv hh hl hfl hok htruth hO hedge
+
+/-- C03.f (4)  BRIDGE TO THE IMPLEMENTATION'S TEST.  `point_in_cicumcircle` computes `center, radius = circumsphere(vertices)`
+(`circumsphere2`, generated) and answers `norm(center - pt) < radius * (1 + eps)`.  For a non-degenerate triangle and any
+`sqrt` with `SqrtLaw`: with `eps = 0` the answer IS the polynomial predicate `InCircle` (also in squared form
+`dist² < radius²`), and for every `eps ≥ 0` a point strictly inside is answered `True`, i.e. a `False` answer of the real
+test implies "not strictly inside". -/
+theorem point_in_circumcircle_exact_iff {α : Type} [Field α] [LinearOrder α] [IsStrictOrderedRing α]
+    (sqrt : α → α) (hs : Prims.SqrtLaw sqrt) (a b c p : α × α) (h : sideL a b c ≠ 0) :
+    (circTest sqrt 0 a b c p ↔ InCircle a b c p) ∧
+    (Prims.dsq2 (Gen.Prims.circumsphere2 sqrt a.1 a.2 b.1 b.2 c.1 c.2).1.1
+        (Gen.Prims.circumsphere2 sqrt a.1 a.2 b.1 b.2 c.1 c.2).1.2 p.1 p.2
+      < (Gen.Prims.circumsphere2 sqrt a.1 a.2 b.1 b.2 c.1 c.2).2 * (Gen.Prims.circumsphere2 sqrt a.1 a.2 b.1 b.2 c.1 c.2).2
+      ↔ InCircle a b c p) ∧
+    (∀ eps : α, 0 ≤ eps → ¬ circTest sqrt eps a b c p → ¬ InCircle a b c p) :=
+  ⟨circTest_zero_iff_inCircle sqrt hs a b c p h, circumsphere2_sq_test_iff_inCircle sqrt hs a b c p h,
+    fun eps he hn hin => hn (inCircle_imp_circTest sqrt hs a b c p h eps he hin)⟩
+
+/-! ### Non-vacuity (5): square + one triangle below it, new point `(3,2)`; the cavity is the two triangles of the square,
+the hole edge `[0,1]` has the NON-deleted neighbour `[0,1,4]`, the other three hole edges are hull edges -/
+
+example : init 2 5 [[0, 1, 2], [0, 2, 3], [0, 1, 4]] = .ok exD := by decide
+
+theorem exD_run : addPoint exD (some [0, 1, 2]) exOD =
+    .ok (exD1, [[0, 1, 2], [0, 2, 3]], [[0, 1, 5], [1, 2, 5], [0, 3, 5], [2, 3, 5]]) := by decide
+
+theorem exD_inv : Inv exD := by
+  refine init_inv (dim := 2) (n := 5) (initial := [[0, 1, 2], [0, 2, 3], [0, 1, 4]]) ?_ (by decide)
+  intro t ht
+  simp only [List.mem_cons, List.not_mem_nil, or_false] at ht
+  rcases ht with rfl | rfl | rfl <;> exact ⟨rfl, by decide, by decide⟩
+
+theorem exD_opposite : OppositeSides2 exXD [[0, 1, 2], [0, 2, 3]] := by
+  refine ⟨?_, count_le_two_of_mem (by decide)⟩
+  norm_num [combos, sve2, sv2, area2, exXD]
+
+/-- (i): the new point is strictly inside the circumcircle of both deleted triangles, and NOT strictly inside that of
+the third one — the recorded answers `exOD.circ` are the truthful ones -/
+theorem exD_answers : InCircle2 exXD [0, 1, 2] (exXD 5) ∧ InCircle2 exXD [0, 2, 3] (exXD 5) ∧
+    ¬ InCircle2 exXD [0, 1, 4] (exXD 5) := by
+  norm_num [InCircle2, sv2, pwT, power, sideL, diamC0, area2, exXD]
+
+/-- (ii): the hole edges -/
+theorem exD_edges : ∀ e ∈ hole 2 [[0, 1, 2], [0, 2, 3]],
+    (∃ t' ∈ exD.simplices, e ∈ combos 2 t' ∧
+      (∀ c' ∈ t', c' ∉ e → sve2 exXD (owner 2 [[0, 1, 2], [0, 2, 3]] e) e (exXD c') *
+        sv2 exXD (owner 2 [[0, 1, 2], [0, 2, 3]] e) < 0) ∧
+      ¬ InCircle2 exXD t' (exXD exD.nVerts) ∧
+      (∀ c' ∈ t', c' ∉ e → ¬ InCircle2 exXD (owner 2 [[0, 1, 2], [0, 2, 3]] e) (exXD c'))) ∨
+    0 ≤ sve2 exXD (owner 2 [[0, 1, 2], [0, 2, 3]] e) e (exXD exD.nVerts) * sv2 exXD (owner 2 [[0, 1, 2], [0, 2, 3]] e) := by
+  have h0 : hole 2 [[0, 1, 2], [0, 2, 3]] = [[0, 1], [1, 2], [0, 3], [2, 3]] := by decide
+  have h1 : owner 2 [[0, 1, 2], [0, 2, 3]] [0, 1] = [0, 1, 2] := by decide
+  have h2 : owner 2 [[0, 1, 2], [0, 2, 3]] [1, 2] = [0, 1, 2] := by decide
+  have h3 : owner 2 [[0, 1, 2], [0, 2, 3]] [0, 3] = [0, 2, 3] := by decide
+  have h4 : owner 2 [[0, 1, 2], [0, 2, 3]] [2, 3] = [0, 2, 3] := by decide
+  have hn : exD.nVerts = 5 := rfl
+  rw [h0]
+  simp only [List.forall_mem_cons, h1, h2, h3, h4, hn]
+  refine ⟨Or.inl ⟨[0, 1, 4], by decide, by decide, ?_, exD_answers.2.2, ?_⟩, Or.inr ?_, Or.inr ?_, Or.inr ?_, ?_⟩
+  · norm_num [sve2, sv2, area2, exXD]
+  · norm_num [InCircle2, sv2, pwT, power, sideL, diamC0, area2, exXD]
+  · norm_num [sve2, sv2, area2, exXD]
+  · norm_num [sve2, sv2, area2, exXD]
+  · norm_num [sve2, sv2, area2, exXD]
+  · intro e he; simp at he
+
+/-- all hypotheses of `add_point_delaunay_preserves_area_2d` hold for this run (no star-shapedness assumed), so its
+conclusion does: the four new triangles have the area of the two deleted ones … -/
+example :
+    (([[0, 1, 5], [1, 2, 5], [0, 3, 5], [2, 3, 5]] : List Simplex).map (fun t => |sv2 exXD t|)).sum =
+      (([[0, 1, 2], [0, 2, 3]] : List Simplex).map (fun t => |sv2 exXD t|)).sum :=
+  (add_point_delaunay_preserves_area_2d exXD exD_inv rfl
+    (by intro h hh; cases hh; exact Or.inr (by decide)) (by decide) (by decide) (by decide) exD_run
+    exD_opposite
+    (by
+      intro t ht
+      simp only [List.mem_cons, List.not_mem_nil, or_false] at ht
+      rcases ht with rfl | rfl
+      · exact exD_answers.1
+      · exact exD_answers.2.1)
+    exD_edges).1
+
+/-- … and the star-shapedness DERIVED by `cavity_star_shaped_2d` for this cavity -/
+example : ∀ e ∈ hole 2 [[0, 1, 2], [0, 2, 3]],
+    0 ≤ osign (sv2 exXD (owner 2 [[0, 1, 2], [0, 2, 3]] e)) * sve2 exXD (owner 2 [[0, 1, 2], [0, 2, 3]] e) e (exXD 5) :=
+  holeEdges_star exXD (S := exD.simplices) 5
+    (fun t ht => by
+      have := exD_inv.valid t ht
+      exact ⟨this.1, this.2.1⟩)
+    (by decide)
+    (by
+      intro t ht
+      simp only [List.mem_cons, List.not_mem_nil, or_false] at ht
+      rcases ht with rfl | rfl
+      · exact exD_answers.1
+      · exact exD_answers.2.1)
+    exD_edges
+
+/-- the recorded answers `exOD.circ` are truthful for the coordinates `exXD` … -/
+theorem exD_truthful : ∀ r ∈ exOD.circ, (r.2 = true ↔ InCircle2 exXD r.1 (exXD exD.nVerts)) := by
+  have hn : exD.nVerts = 5 := rfl
+  simp only [exOD, List.forall_mem_cons, hn]
+  refine ⟨?_, ?_, ?_, ?_⟩
+  · simpa using exD_answers.1
+  · simpa using exD_answers.2.1
+  · simpa using exD_answers.2.2
+  · intro r hr; cases hr
+
+/-- … so `add_point_truthful_preserves_area_2d` applies (hypotheses: truthful answers, genuine triangulation, locally
+Delaunay across `[0,1]`, hull edges): in-circle facts, star-shapedness and area conservation are all CONCLUSIONS -/
+example :
+    (∀ t ∈ ([[0, 1, 2], [0, 2, 3]] : List Simplex), InCircle2 exXD t (exXD 5)) ∧
+    (∀ e ∈ hole 2 [[0, 1, 2], [0, 2, 3]],
+      0 ≤ osign (sv2 exXD (owner 2 [[0, 1, 2], [0, 2, 3]] e)) * sve2 exXD (owner 2 [[0, 1, 2], [0, 2, 3]] e) e (exXD 5)) ∧
+    (([[0, 1, 5], [1, 2, 5], [0, 3, 5], [2, 3, 5]] : List Simplex).map (fun t => |sv2 exXD t|)).sum =
+      (([[0, 1, 2], [0, 2, 3]] : List Simplex).map (fun t => |sv2 exXD t|)).sum := by
+  have h := add_point_truthful_preserves_area_2d exXD exD_inv rfl
+    (by intro h hh; cases hh; exact Or.inr (by decide)) (by decide) (by decide) (by decide) exD_run
+    exD_truthful exD_opposite
+    (by
+      intro e he
+      rcases exD_edges e he with ⟨t', ht', h1, h2, h3, h4⟩ | h
+      · refine Or.inl ⟨t', ht', ?_, h1, h2, h4⟩
+        intro hd
+        simp only [List.mem_cons, List.not_mem_nil, or_false] at hd
+        rcases hd with rfl | rfl
+        · exact h3 exD_answers.1
+        · exact h3 exD_answers.2.1
+      · exact Or.inr h)
+  exact ⟨h.1, h.2.1, h.2.2.1⟩
+
+/-- COUNTEREXAMPLE: the LOCAL DELAUNAY clause cannot be dropped.  `a = (0,0)`, `b = (4,0)`, `c = (2,1)`, `d = (2,-1)` (so `d`
+IS strictly inside `circ(abc)`), `p = (2,-7/2)`: `abc`, `abd` on opposite sides of `ab`, `p` strictly inside `circ(abc)`,
+`p` not strictly inside `circ(abd)` — and `p` is strictly on the far side of `ab`. -/
+example :
+    let a : ℚ × ℚ := (0, 0); let b : ℚ × ℚ := (4, 0); let c : ℚ × ℚ := (2, 1); let d : ℚ × ℚ := (2, -1)
+    let p : ℚ × ℚ := (2, -7 / 2)
+    sideL a b c * sideL a b d < 0 ∧ InCircle a b c p ∧ ¬ InCircle a b d p ∧ InCircle a b c d ∧
+      sideL a b c * sideL a b p < 0 := by
+  norm_num [InCircle, power, sideL, diamC0]
+
+/-- COCIRCULAR POINTS are covered by the weak notion "not strictly inside": `a = (-4,-3)`, `b = (4,-3)`, `d = (0,-5)` on the
+circle of radius 5 about the origin, `c = (0,7)`, and the new point `p = (3,4)` exactly ON `circ(abd)` (so `abd` is not
+deleted by the exact strict test), strictly inside `circ(abc)`: all hypotheses of the key lemma hold and so does its
+conclusion. -/
+example :
+    let a : ℚ × ℚ := (-4, -3); let b : ℚ × ℚ := (4, -3); let c : ℚ × ℚ := (0, 7); let d : ℚ × ℚ := (0, -5)
+    let p : ℚ × ℚ := (3, 4)
+    power a b d p = 0 ∧ sideL a b c * sideL a b d < 0 ∧ InCircle a b c p ∧ ¬ InCircle a b c d ∧ ¬ InCircle a b d p ∧
+      0 < sideL a b c * sideL a b p := by
+  norm_num [InCircle, power, sideL, diamC0]
 
 end Tri
